@@ -12,16 +12,18 @@ from sim import filgen
 from sim.core import SimLivelock, Violation
 from sim.disk import SimDisk
 
-from .c02 import after_list_removal, gen_files, warm  # noqa: F401
+from .c02 import after_list_removal, gen_big_files, gen_files, warm  # noqa: F401
 
 ID = "C01"
-SHRINK_LISTS = ("ops", "faults")
+SHRINK_LISTS = ("ops", "faults", ("files", "nsamps"))
 SHRINK_MIN = {"nchans": 1, "nbits": 1, "gulp": 1}
+SHRINK_SIMPLE = {"consumer": "plain", "allocator": None, "k4": None, "abandon_at": None}
 
 
 # ------------------------------------------------------------------ generation
 def generate(rng, tier) -> dict:
-    files = gen_files(rng, max_total=48 if tier == "quick" else 256)
+    big = rng.random() < (0.03 if tier == "quick" else 0.1)
+    files = gen_big_files(rng) if big else gen_files(rng, max_total=48 if tier == "quick" else 256)
     N = sum(files["nsamps"])
     bounds = list(np.cumsum(files["nsamps"]))
     ops = []
@@ -245,6 +247,8 @@ def execute(sc, ctx) -> None:
     nfiles = len(files["nsamps"])
     if nbits < 8:
         ctx.probe("sub-byte")
+    if files.get("big"):
+        ctx.probe("big-blocks")
     ctx.sig += [f"nbits{nbits}", f"files{nfiles}"]
     truncated = False
     after_fault = False
